@@ -9,7 +9,9 @@
 (* manager mutex).  RemoveConn may be called for any upstream ever added,  *)
 (* any number of times: the proxy removes an upstream whose session        *)
 (* reports go-away, and the upstream handler's deferred RemoveConn runs    *)
-(* when the connection ends.                                               *)
+(* when the connection ends.  Between the moment an upstream's session     *)
+(* ends (CloseSess) and that deferred RemoveConn the upstream is still      *)
+(* registered, still counted and may still be selected (the dial fails).    *)
 (***************************************************************************)
 EXTENDS Integers, Sequences, FiniteSets, TLC
 
@@ -28,15 +30,16 @@ VARIABLES
   count,   \* count[e]: listeners recorded in cluster.State (domain = endpoints with count > 0)
   pub,     \* pub[e]: count published in the gossip state (domain = live endpoint:e keys)
   added,   \* upstreams ever added
+  closed,  \* registered upstreams whose session has ended (their RemoveConn has not run yet)
   last,    \* result of the last Select: an upstream, REMOTE or NONE; "" if the last call was not a Select
   recent,  \* ghost: recent[e] = selections on e since its set of upstreams last changed (capped)
   wait     \* ghost: wait[u] = selections on EpOf[u] since u was last selected or added
 
-vars == <<lb, count, pub, added, last, recent, wait>>
+vars == <<lb, count, pub, added, closed, last, recent, wait>>
 
 Init ==
   /\ lb = <<>> /\ count = <<>> /\ pub = <<>>
-  /\ added = {}
+  /\ added = {} /\ closed = {}
   /\ last = ""
   /\ recent = [e \in Ep |-> <<>>]
   /\ wait = [u \in Up |-> 0]
@@ -68,6 +71,7 @@ AddConn(u) ==
   /\ added' = added \cup {u}
   /\ wait' = [wait EXCEPT ![u] = 0]
   /\ last' = ""
+  /\ UNCHANGED closed
 
 \* loadBalancer.Remove + the repaired RemoveConn: the cluster count changes only
 \* if the upstream was still registered
@@ -82,8 +86,17 @@ RemoveConn(u) ==
                 ELSE lb' = Set(lb, e, [ups |-> ups2, next |-> lb[e].next % Len(ups2)])
              /\ RemoveLocal(e)
              /\ recent' = [recent EXCEPT ![e] = <<>>]
+  /\ closed' = closed \ {u}
   /\ UNCHANGED <<added, wait>>
   /\ last' = ""
+
+\* the session of a registered upstream ends (the client went away, the network dropped):
+\* nothing in the registry changes until the handler's deferred RemoveConn runs
+CloseSess(u) ==
+  /\ u \in Registered(EpOf[u]) /\ u \notin closed
+  /\ closed' = closed \cup {u}
+  /\ last' = ""
+  /\ UNCHANGED <<lb, count, pub, added, recent, wait>>
 
 \* Select(e, allowRemote): local upstreams first (round robin), else a remote node if allowed
 Select(e, allowRemote) ==
@@ -98,11 +111,12 @@ Select(e, allowRemote) ==
                                       ELSE wait[x]]
      ELSE /\ last' = IF allowRemote /\ e \in Remote THEN REMOTE ELSE NONE
           /\ UNCHANGED <<lb, recent, wait>>
-  /\ UNCHANGED <<count, pub, added>>
+  /\ UNCHANGED <<count, pub, added, closed>>
 
 Next ==
   \/ \E u \in Up : AddConn(u)
   \/ \E u \in Up : RemoveConn(u)
+  \/ \E u \in Up : CloseSess(u)
   \/ \E e \in Ep, r \in BOOLEAN : Select(e, r)
 
 Spec == Init /\ [][Next]_vars
@@ -114,6 +128,8 @@ CountsMatch ==
   /\ \A e \in DOMAIN lb : count[e] = Len(lb[e].ups) /\ count[e] > 0
 PublishedMatches == pub = count
 AdvertisedIffConnected == \A e \in Ep : (e \in DOMAIN pub) <=> (Registered(e) # {})
+
+ClosedAreRegistered == \A u \in closed : u \in Registered(EpOf[u])
 
 (* C15 *)
 CursorInRange == \A e \in DOMAIN lb : lb[e].next \in 0..(Len(lb[e].ups) - 1)
@@ -133,5 +149,5 @@ SelectValidStep ==
       /\ (~r => last' # REMOTE)
 SelectValid == [][SelectValidStep]_vars
 
-View == <<lb, count, pub, added, recent, wait>>
+View == <<lb, count, pub, added, closed, recent, wait>>
 =============================================================================
